@@ -5,6 +5,7 @@ use std::net::SocketAddrV4;
 use std::net::SocketAddrV6;
 
 use anyhow::Result;
+use anyhow::bail;
 use tokio_util::bytes::Buf;
 use tokio_util::bytes::BufMut;
 use tokio_util::bytes::BytesMut;
@@ -34,20 +35,35 @@ pub fn encode(addr: &Address, dst: &mut BytesMut) {
 }
 
 pub fn decode(src: &mut BytesMut) -> Result<Address> {
+    if !src.has_remaining() {
+        bail!("insufficient length of address");
+    }
     let addr_type = Socks5AddressType::try_from(src.get_u8())?;
     match addr_type {
         Socks5AddressType::Ipv4 => {
+            if src.remaining() < 4 + 2 {
+                bail!("insufficient length of address");
+            }
             let ip_v4 = Ipv4Addr::from(src.get_u32());
             Ok(Address::Socket(SocketAddr::V4(SocketAddrV4::new(ip_v4, src.get_u16()))))
         }
         Socks5AddressType::Domain => {
+            if !src.has_remaining() {
+                bail!("insufficient length of address");
+            }
             let len = src.get_u8();
+            if src.remaining() < len as usize + 2 {
+                bail!("insufficient length of address");
+            }
             let host_bytes = src.split_to(len as usize);
             let port = src.get_u16();
-            let host = unsafe { String::from_utf8_unchecked(host_bytes.to_vec()) };
+            let host = String::from_utf8(host_bytes.to_vec())?;
             Ok(Address::Domain(host, port))
         }
         Socks5AddressType::Ipv6 => {
+            if src.remaining() < 16 + 2 {
+                bail!("insufficient length of address");
+            }
             let ip_v6 = Ipv6Addr::from(src.get_u128());
             Ok(Address::Socket(SocketAddr::V6(SocketAddrV6::new(ip_v6, src.get_u16(), 0, 0))))
         }
